@@ -29,6 +29,12 @@ TECHNIQUE = 'static analysis: table rule, def-use of the narrowed array, effect 
 WANT_OPS = {'>': 'operator.gt', '<': 'operator.lt', '>=': 'operator.ge', '<=': 'operator.le', '==': 'operator.eq'}
 
 
+def _scopes(P, f):
+    """the function and the helper functions defined inside it"""
+    pre = f.qualname + '.<locals>.'
+    return [f] + [g for q, g in sorted(P.funcs.items()) if q.startswith(pre)]
+
+
 def rule_operators(ck):
     P = ck.prog
     ck.clause('D1')
@@ -72,11 +78,11 @@ def rule_operators(ck):
             probs.append('operator key is `%s`' % u(op))
         (o.fail('; '.join(probs)) if probs else o.ok('operators[op](column, float(value))'))
     # statement split order
-    for n in all_nodes(f):
+    for g_, n in [(g_, n) for g_ in _scopes(P, f) for n in all_nodes(g_)]:
         if isinstance(n, ast.Assign) and isinstance(n.targets[0], ast.Tuple) and isinstance(n.value, ast.Call) \
                 and isinstance(n.value.func, ast.Attribute) and n.value.func.attr == 'split':
             names = [e.id if isinstance(e, ast.Name) else '_' for e in n.targets[0].elts]
-            o = ck.ob('C04-D1.split', f, n, n)
+            o = ck.ob('C04-D1.split', g_, n, n)
             if len(names) == 3:
                 ok = names[1] == apps[0].func.slice.id if apps and isinstance(apps[0].func.slice, ast.Name) else True
                 (o.ok('(name, op, value)') if ok and names[0] == 'name' else o.fail('statement is split as %s, expected (name, operator, value)' % names))
@@ -146,10 +152,27 @@ def rule_datetime(ck):
     ck.clause('D3')
     f = P.func(A + 'filter')
     ex = Expander(P, f)
-    branches = [n for n in all_nodes(f) if isinstance(n, ast.If) and isinstance(n.test, ast.Compare) and const_value(n.test.comparators[0]) == 'datetime']
+    scopes = _scopes(P, f)
+    branches = [(g, n) for g in scopes for n in all_nodes(g) if isinstance(n, ast.If) and isinstance(n.test, ast.Compare)
+                and const_value(n.test.comparators[0]) == 'datetime']
     o = ck.ob('C04-D3.branches', f, 'datetime handled in the single-statement and in the list branch', f.node)
-    (o.ok() if len(branches) == 2 else o.fail('datetime statements are handled in %d place(s), expected both branches' % len(branches)))
-    for b in branches:
+    # every kind of application site (the single statement, and the loop over a list) must be able to see the rewritten
+    # column: the column name reaching it has the constant 'origin_time' among its alternatives
+    exi = Expander(P, f, inline_depth=1)
+    kinds = {}
+    for a in [n for n in all_nodes(f) if isinstance(n, ast.Call) and isinstance(n.func, ast.Subscript) and u(n.func.value) == 'operators']:
+        col = a.args[0] if a.args else None
+        sees = False
+        if isinstance(col, ast.Subscript):
+            e = exi.expand(col.slice)
+            sees = any(isinstance(x, ast.Constant) and x.value == 'origin_time' for x in ast.walk(e))
+        k = 'list' if in_loop(a, f.node) is not None else 'single'
+        kinds[k] = kinds.get(k, False) or sees
+    missing = [k for k in ('single', 'list') if not kinds.get(k)]
+    (o.ok('both application kinds reach the origin_time rewrite') if branches and not missing else
+     o.fail('datetime statements are not rewritten to origin_time for the %s statement form (handled in %d place(s))'
+            % (' and the '.join(missing) or '?', len(branches))))
+    for f, b in branches:
         oo = ck.ob('C04-D3.rewrite', f, b.test, b)
         names = [a for a in b.body if isinstance(a, ast.Assign) and isinstance(a.targets[0], ast.Name) and a.targets[0].id == 'name']
         vals = [a for a in b.body if isinstance(a, ast.Assign) and isinstance(a.targets[0], ast.Name) and a.targets[0].id == 'value']
